@@ -89,7 +89,7 @@ Proof.
   destruct i as [us mat mp ads temp meta b]. simpl in *. subst us.
   assert (TD : to_dict (mkIso [u1; u2; u3; u4; u5; u6; u7] mat mp ads temp meta b)
                = fixed (mkIso [u1; u2; u3; u4; u5; u6; u7] mat mp ads temp meta b) ++ meta).
-  { destruct b; cbv -[dict_update mat_val]; (rewrite dict_update_disjoint; [reflexivity|exact Hn|]);
+  { destruct b; cbv -[dict_update mat_val']; (rewrite dict_update_disjoint; [reflexivity|exact Hn|]);
       apply (disjoint_subset reserved_all); auto. }
   unfold export_doc. rewrite TD.
   assert (FV : forall X, mem "file_version" (keys X) = false ->
@@ -181,11 +181,11 @@ Ltac app_conc meta :=
   end.
 
 Lemma mat_parse mat mp : mem "name" (keys mp) = false -> nodup_keys mp = true ->
-  let mv := match mp with [] => VStr mat | p => VDict (dict_update [("name", VStr mat)] p) end in
+  let mv := mat_val' mat mp in
   match mv with VStr s => Ok (s, []) | VDict md => match dget "name" md with Some (VStr s) => Ok (s, ddel "name" md) | _ => Err FellOffEnd end
               | _ => Err FellOffEnd end = Ok (mat, mp) /\ is_none mv = false.
 Proof.
-  intros Hn Hd. destruct mp as [|kv r]; [split; reflexivity|].
+  intros Hn Hd. unfold mat_val'. destruct mp as [|kv r]; [split; reflexivity|].
   set (p := kv :: r) in *. cbv zeta. rewrite dict_update_disjoint; auto.
   - change ([("name", VStr mat)] ++ p) with (("name", VStr mat) :: p). cbn [dget ddel String.eqb Ascii.eqb Bool.eqb].
     change (String.eqb "name" "name") with true. cbn iota. rewrite ddel_notin by exact Hn. split; reflexivity.
@@ -245,7 +245,7 @@ Proof.
   destruct i as [us mat mp ads temp meta b]. cbn [i_units i_mat i_mprops i_ads i_temp i_meta i_body] in *. subst us.
   unfold body_keys in K. cbn [i_body] in K.
   destruct (mat_parse mat mp Hmn Hmd) as [Hmv Hnone]. cbv zeta in Hmv, Hnone.
-  remember (match mp with [] => VStr mat | _ :: _ => VDict (dict_update [("name", VStr mat)] mp) end) as mv eqn:Emv in *.
+  remember (mat_val' mat mp) as mv eqn:Emv in *.
   assert (Hu1 : u1 = VStr s) by (cbv in Hs1; congruence).
   assert (Hrel : prefix "relative" s = true -> u2 = VNone) by (intros E; specialize (Hs2 E); cbv in Hs2; congruence).
   pose proof (base_ctor_fixed u1 u2 u3 u4 u5 u6 u7 mat mp ads temp meta _ s Hd Hmv Hnone Hu1 Hrel Hlab Hads Htemp) as BC.
